@@ -375,7 +375,7 @@ pub fn translate() -> (String, Value) {
     let mut tys = vec![];
     let mut errors = vec![];
     // H20_REPO: only for testing the translator on a mutated copy of the sources
-    let root = std::env::var("H20_REPO").unwrap_or_default();
+    let root = std::env::var("H20_REPO").ok().filter(|s| !s.is_empty()).unwrap_or_else(crate::repo);
     for (tag, path) in FILES {
         let path = if root.is_empty() { path.to_string() } else { path.replacen("/repo", &root, 1) };
         if let Err(e) = read_file(tag, &path, &mut tys) {
